@@ -19,7 +19,8 @@ ExprClasses(c) ==
   CASE c = "path" -> {"ok", "ok-filter", "ok-escape", "ok-empty-result", "ok-empty-query", "ok-union", "ok-intersection", "ok-multiline", "ok-membership", "huge-literal", "syntax", "type", "name", "index", "illtyped-only-when-checked", "unterminated", "bad-regex"}
     [] c = "pointer" -> {"ok", "ok-root", "ok-escape", "ok-uri", "ok-nonascii", "ok-trailing-space", "unresolvable-key", "unresolvable-index", "into-scalar", "no-leading-slash"}
     [] c = "patch" -> {"ok", "ok-root", "ok-empty", "ok-escape", "non-object-member", "test-fails", "missing-target", "not-an-array", "malformed-json", "unknown-op", "missing-member", "bad-pointer", "undecodable"}
-DocClasses == {"object", "array", "json-string", "deep-array", "object-utf16", "object-utf8-bom", "malformed", "malformed-scalar", "undecodable", "empty-file"}
+\* ("object-overflowing-number": legal JSON numbers beyond the range of a double, which the host reads as infinities)
+DocClasses == {"object", "array", "json-string", "deep-array", "object-utf16", "object-utf8-bom", "object-overflowing-number", "malformed", "malformed-scalar", "undecodable", "empty-file"}
 
 OptSet(c) == [debug : BOOLEAN, pretty : BOOLEAN, nue : BOOLEAN,                    \* global options
               inline : IF c = "patch" THEN {FALSE} ELSE BOOLEAN,                   \* expression inline or from a file
